@@ -490,3 +490,79 @@ pub fn bulk_containers<T: Fam, S: Src>(s: &mut S) {
     let back: arrayvec::ArrayVec<T, 4> = de(&with_len, ver);
     assert!(back.len() == 2 && eq2(&back[0], &back[1]), "C04: ArrayVec<{},4> loads element-wise equal", T::NAME);
 }
+
+// ---------------------------------------------------------------------------------------------------------------
+// C12 for more hand-written WithSchema impls (one value each; the walker is crate::schemaread)
+
+pub fn schema_library2<S: Src>(s: &mut S) {
+    use crate::schemaread::schema_faithful_value as f;
+    use std::collections::*;
+    use std::sync::atomic::*;
+    let k = s.below(34);
+    let b = s.u8();
+    match k {
+        0 => f(&std::rc::Rc::new(b as u32), 0, "Rc<u32>"),
+        1 => f(&std::sync::Arc::new(b as u16), 0, "Arc<u16>"),
+        2 => f(&std::borrow::Cow::<str>::Owned("cow".into()), 0, "Cow<str>"),
+        3 => f(&[b, 1].into_iter().collect::<BinaryHeap<u8>>(), 0, "BinaryHeap<u8>"),
+        4 => f(&[b as u16].into_iter().collect::<HashSet<u16>>(), 0, "HashSet<u16>"),
+        5 => f(&'€', 0, "char"),
+        6 => f(&AtomicU32::new(b as u32), 0, "AtomicU32"),
+        7 => f(&AtomicBool::new(b & 1 == 1), 0, "AtomicBool"),
+        8 => f(&(3u32..(4 + b as u32)), 0, "Range<u32>"),
+        9 => f(&(std::time::SystemTime::UNIX_EPOCH + std::time::Duration::new(b as u64, 5)), 0, "SystemTime"),
+        10 => f(&std::net::IpAddr::V4(std::net::Ipv4Addr::new(b, 2, 3, 4)), 0, "IpAddr V4"),
+        11 => f(&std::net::IpAddr::V6(std::net::Ipv6Addr::LOCALHOST), 0, "IpAddr V6"),
+        12 => f(&std::path::PathBuf::from("a/b"), 0, "PathBuf"),
+        13 => f(&(b,), 0, "(u8,)"),
+        14 => f(&std::cell::Cell::new(b), 0, "Cell<u8>"),
+        15 => f(&std::cell::RefCell::new(b as u16), 0, "RefCell<u16>"),
+        16 => f(&std::sync::Mutex::new(b), 0, "std::sync::Mutex<u8>"),
+        17 => { let a: std::sync::Arc<str> = "hi".into(); f(&a, 0, "Arc<str>") }
+        18 => { let a: std::sync::Arc<[u8]> = vec![b, 2].into(); f(&a, 0, "Arc<[u8]>") }
+        19 => f(&vec![b as u16, 2].into_boxed_slice(), 0, "Box<[u16]>"),
+        20 => { let mut a = arrayvec::ArrayVec::<u16, 4>::new(); a.push(b as u16); f(&a, 0, "ArrayVec<u16,4>") }
+        21 => f(&arrayvec::ArrayString::<8>::from("hej").unwrap(), 0, "ArrayString<8>"),
+        22 => { let mut a = smallvec::SmallVec::<[u16; 2]>::new(); a.push(1); a.push(b as u16); a.push(3); f(&a, 0, "SmallVec<[u16;2]>") }
+        23 => f(&[(b, 2u16)].into_iter().collect::<indexmap::IndexMap<u8, u16>>(), 0, "IndexMap<u8,u16>"),
+        24 => f(&[b].into_iter().collect::<indexmap::IndexSet<u8>>(), 0, "IndexSet<u8>"),
+        25 => f(&Some(Some(b)), 0, "Option<Option<u8>>"),
+        26 => f(&[[b, 1], [2, 3]], 0, "[[u8;2];2]"),
+        27 => f(&vec![Some("x".to_string()), None], 0, "Vec<Option<String>>"),
+        28 => f(&[(b, "v".to_string())].into_iter().collect::<HashMap<u8, String>>(), 0, "HashMap<u8,String>"),
+        29 => f(&(b as i128 - 3), 0, "i128"),
+        30 => f(&(b as f64), 0, "f64"),
+        31 => f(&(b as isize), 0, "isize"),
+        32 => f(&savefile::Canary1::default(), 0, "Canary1"),
+        _ => f(&std::marker::PhantomData::<u8>, 0, "PhantomData<u8>"),
+    }
+}
+#[cfg(feature = "xnative")]
+pub fn schema_library3<S: Src>(s: &mut S) {
+    use crate::schemaread::schema_faithful_value as f;
+    let b = s.u8();
+    match s.below(4) {
+        0 => f(&parking_lot::Mutex::new(b), 0, "parking_lot::Mutex<u8>"),
+        1 => f(&parking_lot::RwLock::new(b as u16), 0, "parking_lot::RwLock<u16>"),
+        2 => {
+            // Schema::UtcTimestamp is a leaf kind of its own (documented: i64 nanoseconds since the epoch): 8 bytes on the wire
+            let v = chrono::DateTime::<chrono::Utc>::from_timestamp(b as i64, 7).unwrap();
+            let mut buf: Vec<u8> = Vec::new();
+            assert!(savefile::Serializer::bare_serialize(&mut buf, 0, &v).is_ok());
+            assert!(savefile::get_schema::<chrono::DateTime<chrono::Utc>>(0) == savefile::Schema::UtcTimestamp && buf.len() == 8, "C12: chrono::DateTime<Utc>: schema UtcTimestamp describes 8 bytes");
+        }
+        _ => f(&std::time::Duration::new(b as u64, 9), 0, "Duration"),
+    }
+}
+
+/// C12 for the bit vector / bit set types (one harness, so that the known finding is keyed to these types)
+#[cfg(feature = "xnative")]
+pub fn schema_bitvec<S: Src>(s: &mut S) {
+    use crate::schemaread::schema_faithful_value as f;
+    match s.below(4) {
+        0 => { let mut v = bit_vec::BitVec::new(); for i in 0..11 { v.push(i % 3 == 0); } f(&v, 0, "bit_vec 0.6 BitVec") }
+        1 => { let mut v = bit_vec08::BitVec::new(); for i in 0..37 { v.push(i % 5 == 0); } f(&v, 0, "bit_vec 0.8 BitVec") }
+        2 => { let mut v = bit_set::BitSet::new(); v.insert(1); v.insert(40); f(&v, 0, "bit_set 0.5 BitSet") }
+        _ => { let mut v = bit_set08::BitSet::new(); v.insert(0); v.insert(33); f(&v, 0, "bit_set 0.8 BitSet") }
+    }
+}
